@@ -151,6 +151,24 @@ def oracle_c04(case, li):
             if out != "ok":
                 if li[i - 1] != li[i + 1]:
                     return f"{inp}: answered {out!r} but the map changed"
+                if out.startswith("err BadGeometry") and sew and dim == 2:
+                    # the refusal must be justified: both darts have a successor, the four end points are defined and the
+                    # two edges do NOT point in opposite directions (exact sign of the dot product)
+                    from fractions import Fraction as F
+                    r = int(t[3])
+                    vc = vertex_cells(*s0["b"], n)
+                    def vid(d):
+                        return min(next(c for c in vc if d in c))
+                    b1l, b1r = s0["b"][1][l], s0["b"][1][r]
+                    if b1l == 0 or b1r == 0:
+                        return f"{inp}: refused with BadGeometry although a dart has no successor"
+                    pts = [s0["a"][0][vid(d)] for d in (l, b1r, b1l, r)]
+                    if any(p == "none" for p in pts):
+                        return f"{inp}: refused with BadGeometry although an end point has no coordinates"
+                    P = [[F(x) for x in p.strip("()").split(",")] for p in pts]
+                    dot = sum((P[2][k] - P[0][k]) * (P[1][k] - P[3][k]) for k in range(2))
+                    if dot < 0:
+                        return f"{inp}: refused with BadGeometry although the two edges point in opposite directions (dot = {dot})"
                 continue
             # expected topology
             if sew:
@@ -223,8 +241,10 @@ def exhaustive(rng, nmax, frac=1.0, mask=0b10111, only_n=None):
                 continue
             darts = list(range(1, n + 1))
             load = gens.load_line(2, n, mask, [b0, b1, b2], u)
-            for pat in range(2):
-                vals = gens.value_lines(rng, n, mask, pv=(1.0 if pat == 0 else 0.6), pa=(0.9 if pat == 0 else 0.5))
+            for pat in range(3):
+                # pattern 2: a TINY mesh (coordinates k/2^34): the orientation test must still be an exact sign test
+                vals = gens.value_lines(rng, n, mask, pv=(1.0 if pat != 1 else 0.6), pa=(0.9 if pat == 0 else 0.5),
+                                        den=(4 if pat < 2 else 2 ** 34))
                 for op in ops(n, darts):
                     cid += 1
                     f = "f" if rng.random() < 0.2 else ""
